@@ -437,6 +437,55 @@ pub fn build_mapped(cfg: WorldCfg) -> Result<World, String> {
     crate::checks::c03::build_mapped(cfg)
 }
 
+/// The issuer shrinks while a child has not yet picked up a changed
+/// entitlement: all steps are direct calls, no task order is involved.
+fn shrink_before_child_sync_scenario() -> Vec<crate::report::Finding> {
+    let mut findings = Vec::new();
+    let root = crate::e1run::scratch_root().with_extension("c02s");
+    let _ = std::fs::remove_dir_all(&root);
+    std::fs::create_dir_all(&root).unwrap();
+    let (r, _) = crate::e3::fork_in_dir(&root, || -> Result<Vec<String>, String> {
+        let f = c01::full_ca_res();
+        let mut w = World::build_w3(WorldCfg::default(), res(&f.0, &f.1, &f.2), res("AS65001", "10.0.0.0/24", "")).map_err(|e| e.to_string())?;
+        w.settle()?;
+        let ops = [
+            // gc is now entitled to something else; it has not synchronised yet
+            crate::ops::Op::Entitle { parent: "ca".into(), child: "gc".into(), res: crate::ops::r3("", "10.1.0.0/24", "") },
+            // ca's own resources shrink to a part of what gc's certificate still carries
+            crate::ops::Op::Entitle { parent: "parent".into(), child: "ca".into(), res: crate::ops::r3("AS65000", "10.0.0.0/25", "") },
+            crate::ops::Op::SyncParent { ca: "ca".into(), parent: "parent".into() },
+            crate::ops::Op::SyncParent { ca: "ca".into(), parent: "parent".into() },
+            crate::ops::Op::SyncRepo { ca: "ca".into() },
+        ];
+        for op in &ops {
+            let o = w.apply(op);
+            if !o.ok {
+                return Err(format!("{op}: {:?}", o.err));
+            }
+        }
+        Ok(own_publication_consistent(&w, "ca"))
+    });
+    let _ = std::fs::remove_dir_all(&root);
+    match r {
+        Some(Ok(problems)) => {
+            for p in problems {
+                findings.push(crate::report::Finding {
+                    signature: format!("overclaim-published|{} @ scenario=shrink-before-child-sync", crate::e1::normalize(&p)),
+                    text: format!("[shrink-before-child-sync] overclaim-published: {p}; steps: gc's entitlement changed to 10.1.0.0/24 (gc has not synchronised), ca shrunk to AS65000+10.0.0.0/25, ca synchronised with its parent and its repository"),
+                    replay: serde_json::json!({"scenario": "shrink-before-child-sync", "detail": p}),
+                });
+            }
+        }
+        Some(Err(e)) => findings.push(crate::report::Finding {
+            signature: format!("machinery|{e}"),
+            text: format!("machinery: scenario shrink-before-child-sync could not run: {e}"),
+            replay: serde_json::json!({}),
+        }),
+        None => {}
+    }
+    findings
+}
+
 pub fn run(tier: &Tier, args: &[String]) -> i32 {
     let mut out = Outcome::new("C02", tier, "model_checking");
     out.assumptions = vec![
@@ -474,13 +523,14 @@ pub fn run(tier: &Tier, args: &[String]) -> i32 {
             model: C02Model { stepwise: false, rolls: tier.thorough },
         },
     ];
-    if tier.thorough {
-        configs.push(Config {
-            name: "w3-stepwise".into(),
-            build: Box::new(build_plain),
-            model: C02Model { stepwise: true, rolls: false },
-        });
-    }
+    // (A configuration that ran the queued tasks one at a time was removed:
+    // which of several tasks queued by one event comes first follows the
+    // iteration order of a hash map inside krill, which this machinery does
+    // not control, so a violation seen during exploration could not be
+    // replayed. The one order-dependent behaviour it had shown is pinned
+    // down by the deterministic scenario below.)
+    let _ = C02Model { stepwise: true, rolls: false };
+    out.findings.extend(shrink_before_child_sync_scenario());
     let _ = (UpdateChildRequest::suspend(), ResourceClassNameMapping {
         name_in_parent: ResourceClassName::from("0"),
         name_for_child: ResourceClassName::from("0"),
